@@ -174,7 +174,6 @@ Definition info_conf_stmt : Prop :=
       forall man d1 d2, a_ci d = Some (man, d1, d2) ->
         exists rm r1 r2, conf_str e (e_man e) = Ok rm /\ conf_str e (e_d1 e) = Ok r1 /\ conf_str e (e_d2 e) = Ok r2 /\
                          opt_text rm = man /\ opt_text r1 = d1 /\ opt_text r2 = d2.
-(* not yet proved *)
 
 (* the list-updated indication is raised whenever what the list holds for a non-zero NAME changes *)
 Definition pub (e:entry) := (e_name e, e_src e, e_pi e, (e_confi e, e_man e, e_d1 e, e_d2 e), (e_tx e, e_rx e)).
